@@ -27,6 +27,7 @@ import (
 
 	rocksdb "github.com/facebookincubator/dns/dnsrocks/cgo-rocksdb"
 	"github.com/facebookincubator/dns/dnsrocks/dnsdata"
+	"github.com/facebookincubator/dns/dnsrocks/verifhook"
 )
 
 // DefaultBatchSize is the default allocation for Batch
@@ -268,6 +269,7 @@ func (rdb *RDB) CatchWithPrimary() error {
 	rdb.iteratorPool.disable()
 
 	err := rdb.db.CatchWithPrimary()
+	verifhook.Yield("rdb.catchup.caughtup")
 	if err != nil {
 		return err
 	}
@@ -279,6 +281,7 @@ func (rdb *RDB) CatchWithPrimary() error {
 
 // Add inserts a multi-value pair of key and value
 func (rdb *RDB) Add(key, value []byte) error {
+	verifhook.YieldLock("rdb.add.lock", rdb.writeMutex)
 	rdb.writeMutex.Lock()
 	defer rdb.writeMutex.Unlock()
 
@@ -287,6 +290,7 @@ func (rdb *RDB) Add(key, value []byte) error {
 		return err
 	}
 
+	verifhook.Yield("rdb.add.rmw")
 	return rdb.db.Put(rdb.writeOptions, key, appendValues(oldData, [][]byte{value}))
 }
 
@@ -316,6 +320,7 @@ func (rdb *RDB) GetMemStats() map[string]int64 {
 // Attempts to delete non-existing key or non-existing value will cause
 // an error
 func (rdb *RDB) Del(key, value []byte) error {
+	verifhook.YieldLock("rdb.del.lock", rdb.writeMutex)
 	rdb.writeMutex.Lock()
 	defer rdb.writeMutex.Unlock()
 
@@ -328,6 +333,7 @@ func (rdb *RDB) Del(key, value []byte) error {
 		return ErrNXKey
 	}
 
+	verifhook.Yield("rdb.del.rmw")
 	newData, err := delValue(data, value)
 	if err != nil {
 		return err
@@ -350,6 +356,7 @@ func (rdb *RDB) ExecuteBatch(batch *Batch) error {
 	uniqueKeys := batch.getAffectedKeys()
 
 	// lock is needed, because between getting and updating values there might be a race
+	verifhook.YieldLock("rdb.batch.lock", rdb.writeMutex)
 	rdb.writeMutex.Lock()
 	defer rdb.writeMutex.Unlock()
 	dbValues, errors := rdb.db.GetMulti(rdb.readOptions, uniqueKeys)
@@ -359,6 +366,7 @@ func (rdb *RDB) ExecuteBatch(batch *Batch) error {
 		}
 	}
 
+	verifhook.Yield("rdb.batch.rmw")
 	dbBatch := rdb.db.NewBatch()
 	defer dbBatch.Destroy()
 
